@@ -1854,7 +1854,21 @@ def quiet_armi():
             setattr(runLog, n, f)
 
 
+def _limit_failures_per_key(ctx, per_key=4):
+    """common.Ctx keeps the first 200 failures: a clause that fails on every record of the first stream must not
+    crowd out the keys of later streams (each key is reported once anyway)."""
+    seen, orig = {}, ctx.fail
+
+    def fail(key, *a, **k):
+        seen[key] = seen.get(key, 0) + 1
+        if seen[key] <= per_key:
+            orig(key, *a, **k)
+
+    ctx.fail = fail
+
+
 def run(ctx):
+    _limit_failures_per_key(ctx)
     with common.scratch_dir() as workdir, quiet_armi(), guarded_sparse():
         run_helpers(ctx)
         run_record_sequences(ctx)
